@@ -100,7 +100,13 @@ fn grammar_expr(r: &mut Rng, depth: u32) -> String {
             7 => r.pick(&["#REF!", "#N/A", "#VALUE!", "#DIV/0!", "#NAME?", "#NUM!", "#N/IMPL!", "#SPILL!", "#CALC!", "#CIRC!", "#NULL!", "#ERROR!", "#¡REF!", "#BEZUG!"]).to_string(),
             8 => format!("{}!{}", r.pick(&["Sheet1", "'My Sheet'", "'It''s'", "Ghost", "'a!b'"]), r.pick(&["A1", "A1:B2", "$A$1", "A:A", "1:1"])),
             9 => format!("R{}C{}", r.pick(&["", "1", "[1]", "[-2]", "[0]", "99999999999"]), r.pick(&["", "1", "[1]", "[-2]", "[99999999999]"])),
-            10 => format!("Table1[{}]", r.pick(&["Col", "[#This Row],[Col]", "#All", "[Col]:[Col2]", "", "[", "[#Data],[Col]"])),
+            10 => {
+                if r.chance(1, 2) {
+                    structured_ref(r).trim_start_matches('=').to_string()
+                } else {
+                    format!("Table1[{}]", r.pick(&["Col", "[#This Row],[Col]", "#All", "[Col]:[Col2]", "", "[", "[#Data],[Col]"]))
+                }
+            }
             11 => r.pick(&["name", "_x", "x.y", "A1B", "é"]).to_string(),
             12 => format!("{{{}}}", r.pick(&["1,2;3,4", "1", "\"a\",TRUE", "1,2;3", "", "#N/A"])),
             13 => format!("{}%", r.below(100)),
@@ -126,7 +132,29 @@ fn grammar_expr(r: &mut Rng, depth: u32) -> String {
     }
 }
 
+/// characters after which the lexer is in a different mode (string, quoted sheet, structured reference,
+/// error literal, array, absolute reference, …)
+const MODE_CHARS: &[char] = &['[', ']', '\'', '"', '#', '!', ':', '$', '@', '{', '}', '(', ')'];
+
+/// valid text truncated right after a mode-switching character (optionally followed by one more)
+fn truncate_after_mode_char(r: &mut Rng, base: &str) -> String {
+    let c: Vec<char> = base.chars().collect();
+    let cuts: Vec<usize> = c.iter().enumerate().filter(|(_, ch)| MODE_CHARS.contains(ch)).map(|(i, _)| i + 1).collect();
+    if cuts.is_empty() {
+        return base.to_string();
+    }
+    let cut = *r.pick(&cuts);
+    let mut t: String = c[..cut].iter().collect();
+    if r.chance(1, 3) {
+        t.push(*r.pick(MODE_CHARS));
+    }
+    t
+}
+
 fn mutate(r: &mut Rng, base: &str) -> String {
+    if r.chance(1, 5) {
+        return truncate_after_mode_char(r, base);
+    }
     match r.below(3) {
         0 => {
             // byte level
@@ -148,7 +176,8 @@ fn mutate(r: &mut Rng, base: &str) -> String {
         1 => {
             // char level
             let mut c: Vec<char> = base.chars().collect();
-            let special: Vec<char> = "\"'#!$:[]{}(),;.@%&<>=+-*/^ eE0123456789RCrc\u{a0}\u{202f}é".chars().collect();
+            // biased towards the characters that switch the lexer into another mode
+            let special: Vec<char> = "\"'#!$:[]{}()@\"'#!$:[]{}()@\"'[]#!,;.%&<>=+-*/^ eE0123456789RCrc\u{a0}\u{202f}é".chars().collect();
             for _ in 0..1 + r.below(3) {
                 let pos = r.below(c.len() as u64 + 1) as usize;
                 match r.below(4) {
@@ -178,6 +207,103 @@ fn mutate(r: &mut Rng, base: &str) -> String {
     }
 }
 
+/// a column name of a structured reference, with the escapes `'[ '] '# '@ ''` (and sometimes a raw special)
+fn column_name(r: &mut Rng) -> String {
+    let mut s = String::new();
+    for _ in 0..r.below(7) {
+        match r.below(12) {
+            0 => s.push_str("'["),
+            1 => s.push_str("']"),
+            2 => s.push_str("'#"),
+            3 => s.push_str("''"),
+            4 => s.push_str("'@"),
+            5 => s.push(' '),
+            6 => s.push(*r.pick(&['\'', '[', ']', '#', '@', ':', ',', '(', ')', '"', '!'])),
+            7 => s.push(*r.pick(&['é', 'ß', '日', '1', '_', '.'])),
+            _ => s.push((b'a' + r.below(26) as u8) as char),
+        }
+    }
+    s
+}
+
+/// structured-reference shapes: `Table[Col]`, `Table[[#This Row],[Col]]`, `Table[[A]:[B]]`, `[@Col]`, specials
+fn structured_ref(r: &mut Rng) -> String {
+    let table = *r.pick(&["Table1", "Sales", "a", "T_1", "tb", "Tä", "t.x", ""]);
+    let spec = *r.pick(&["#All", "#Data", "#Headers", "#Totals", "#This Row", "#all", "#Bad", "#"]);
+    let (a, b) = (column_name(r), column_name(r));
+    let body = match r.below(16) {
+        0 | 1 => format!("[{a}]"),
+        2 => format!("[[{a}]]"),
+        3 => format!("[{spec}]"),
+        4 => format!("[[{spec}]]"),
+        5 => format!("[[{spec}],[{a}]]"),
+        6 => format!("[[{spec}], [{a}]]"),
+        7 | 8 => format!("[[{a}]:[{b}]]"),
+        9 => format!("[[{spec}],[{a}]:[{b}]]"),
+        10 => format!("[@{a}]"),
+        11 => format!("[@[{a}]:[{b}]]"),
+        12 => "[]".to_string(),
+        13 => format!("[[{spec}],[{spec}],[{a}]]"),
+        14 => format!("[{spec},[{a}]:[{b}]]"),
+        _ => format!("[ [{a}] : [{b}] ]"),
+    };
+    let sr = format!("{table}{body}");
+    match r.below(8) {
+        0 => sr,
+        1 | 2 => format!("={sr}"),
+        3 => format!("=SUM({sr})"),
+        4 => format!("=SUM({sr})+1"),
+        5 => format!("=@{sr}*2"),
+        6 => format!("=IF({sr}>1,\"a\",{sr})"),
+        _ => format!("=SUM({sr};{sr})"),
+    }
+}
+
+/// texts whose lexing goes through a kernel that is reachable only behind a special prefix
+/// (`ident[` structured references, `[book]` prefixes, `'sheet'!`, `{` arrays, `#` errors, `"` strings,
+/// R1C1 `R[`, `$` absolute references, `@`, spill `#`, exponents)
+const SPECIAL: &[&str] = &[
+    "=SUM(Sales[Bob''s share])", "=Table1[[#This Row],[Col]]", "=Table1[[Jan]:[Dec]]", "=Table1[[#Data],[A'[b]:[x']]]",
+    "=Table1[@Col]", "=Table1[@[a b]:[c]]", "=Table1[#All]", "=Table1[]", "=T[[#Totals],[a'#]]", "=Sales['@x]", "=tb[[#Headers], [x''y]]",
+    "=[1]Sheet1!A1", "=[Book.xlsx]Sheet1!$A$1:$B$2", "='[Book 1.xlsx]My Sheet'!A1", "=[1]!name",
+    "='My Sheet'!A1:B2", "='It''s'!$A$1", "='a''b''c'!A:A", "=SUM('S 1'!A1,'S 1'!B2)", "='My Sheet'!R1C1", "=Sheet1!R[1]C[1]",
+    "={1,2;3,4}", "={\"a\",TRUE;#N/A,-1.5e3}", "=SUM({1,2}*{3;4})", "={1;2}+{\"x\"}",
+    "=#REF!+#N/A", "=#DIV/0!*#VALUE!", "=#NAME?&#NUM!", "=#N/IMPL!+#SPILL!+#CALC!+#CIRC!+#NULL!+#ERROR!", "=Sheet1!#REF!", "=#REF!#REF!",
+    "=R[-1]C[2]", "=R[1]C:R[2]C[3]", "=R1C1:R2C2", "=SUM(R[-3]C,RC[1])", "=R[-1]C[-1]:RC",
+    "=\"a\"\"b\"&\"c\"", "=IF(A1=\"\",\"x\",\"y\")", "=1.5e-3+2%", "=1E+10^-2", "=.5+5.", "=1,5+2",
+    "=$A$1:$B$2", "=Sheet1!$A:$B", "=$1:$2", "=A1#", "=@A1:A3", "=A1:INDEX(B:B,2)", "=-A1%^2", "=A1:B2 B1:C3",
+    "=LAMBDA(x,x+1)(2)", "=LET(a,1,a+1)", "=_xlfn.XLOOKUP(A1,B:B,C:C)", "=TRUE+FALSE", "=SUM(A1,,B2)", "=name.with.dots+_x1",
+];
+
+/// every prefix, every single-character deletion and duplication, and every prefix that ends in a
+/// mode-switching character followed by one more such character
+fn variants(text: &str, out: &mut Vec<String>) {
+    let c: Vec<char> = text.chars().collect();
+    let mut seen = std::collections::HashSet::new();
+    let mut push = |v: String, out: &mut Vec<String>| {
+        if seen.insert(v.clone()) {
+            out.push(v);
+        }
+    };
+    for i in 0..=c.len() {
+        let pre: String = c[..i].iter().collect();
+        if i > 0 && MODE_CHARS.contains(&c[i - 1]) {
+            for m in ['\'', '"', '[', ']', '#', '!', ':', '('] {
+                push(format!("{pre}{m}"), out);
+            }
+        }
+        push(pre, out);
+    }
+    for i in 0..c.len() {
+        let mut d = c.clone();
+        d.remove(i);
+        push(d.into_iter().collect(), out);
+        let mut d = c.clone();
+        d.insert(i, c[i]);
+        push(d.into_iter().collect(), out);
+    }
+}
+
 fn number_like(r: &mut Rng) -> String {
     let alphabet: Vec<char> = "0123456789.,eE+-%$€ /:()".chars().collect();
     match r.below(4) {
@@ -192,11 +318,16 @@ fn number_like(r: &mut Rng) -> String {
 }
 
 fn any_string(r: &mut Rng) -> (String, &'static str) {
-    match r.below(8) {
+    match r.below(10) {
+        8 => (structured_ref(r), "stream:grammar"),
+        9 => {
+            let base = structured_ref(r);
+            (mutate(r, &base), "stream:mutation")
+        }
         0 | 1 => (random_unicode(r, 24), "stream:unicode"),
         2 | 3 => (format!("={}", grammar_expr(r, 3)), "stream:grammar"),
         4 | 5 => {
-            let base = *r.pick(FORMULAS);
+            let base = if r.chance(1, 2) { *r.pick(FORMULAS) } else { *r.pick(SPECIAL) };
             (mutate(r, base), "stream:mutation")
         }
         6 => (number_like(r), "stream:number-like"),
@@ -243,6 +374,33 @@ fn gen_crash(ctx: &Ctx, sink: &mut dyn FnMut(String)) {
             sink(format!("c11 complete {l} {loc} {}", hex(f)));
             sink(format!("c11 cycle {l} {loc} {}", hex(f)));
             sink(format!("c11 input {l} {loc} {}", hex(f)));
+        }
+    }
+    // prefix / deletion / duplication sweep over the special-prefix shapes (fixed list, the localized
+    // error literals of every language, and freshly generated structured references)
+    let mut shapes: Vec<String> = SPECIAL.iter().map(|s| s.to_string()).collect();
+    for l in &langs {
+        let e = &get_language(l).unwrap().errors;
+        shapes.push(format!("={}+{}&{}", e.r#ref, e.na, e.name));
+        shapes.push(format!("={}*{}-{}", e.div, e.value, e.num));
+        shapes.push(format!("=SUM({},{},{},{},{},{})", e.nimpl, e.spill, e.calc, e.circ, e.error, e.null));
+    }
+    let fresh = if ctx.tier == Tier::Quick { 40 } else { 2000 };
+    for _ in 0..fresh {
+        shapes.push(structured_ref(&mut r));
+    }
+    for (k, shape) in shapes.iter().enumerate() {
+        let mut vs = vec![];
+        variants(shape, &mut vs);
+        let l = langs[(k + ctx.seed as usize) % langs.len()];
+        let l2 = langs[(k + 1 + ctx.seed as usize) % langs.len()];
+        let loc = &locs[(k + ctx.seed as usize) % locs.len()];
+        sink(format!("c11 complete {l} {loc} {}", hex(shape)));
+        for v in &vs {
+            sink(format!("c11 parse A1 {l} {loc} {}", hex(v)));
+            sink(format!("c11 parse R1C1 {l2} {loc} {}", hex(v)));
+            sink(format!("c11 input {l} {loc} {}", hex(v)));
+            sink(format!("c11 cycle1 {l2} {loc} {}", hex(v)));
         }
     }
     let n = if ctx.tier == Tier::Quick { 60_000 } else { 3_000_000 };
@@ -369,12 +527,16 @@ fn eval_crash(req: &str) -> ImplOut {
                     let ctx = CellReferenceRC { sheet: "Sheet1".to_string(), row: 3, column: 2 };
                     let _ = p.parse(&s2, &ctx);
                     let _ = p.parse(&s, &ctx);
-                    2
+                    if mode == "A1" {
+                        let _ = ironcalc_base::expressions::lexer::util::get_tokens_with_locale(&s2, locale, language);
+                        let _ = ironcalc_base::expressions::lexer::util::get_tokens(&s);
+                    }
+                    4
                 }),
                 format!("op:parse-{mode}"),
             )
         }
-        "complete" | "cycle" | "input" => {
+        "complete" | "cycle" | "cycle1" | "input" => {
             let (lang, loc, s) = (f[2], f[3], unhex(f[4]).unwrap());
             let key = (lang.to_string(), loc.to_string());
             let heavy = open_ended_range(&s);
@@ -396,6 +558,16 @@ fn eval_crash(req: &str) -> ImplOut {
                         let _ = model.formula_completion(0, 2, 2, &s, usize::MAX);
                         let _ = model.formula_completion(7, 2, 2, &s, 0);
                         k + 2
+                    }
+                    "cycle1" => {
+                        // collapsed cursor at every position, and the whole text selected
+                        let mut k = 0;
+                        for a in 0..=n + 1 {
+                            let _ = model.cycle_reference(&s, a, a);
+                            k += 1;
+                        }
+                        let _ = model.cycle_reference(&s, 0, n);
+                        k + 1
                     }
                     "cycle" => {
                         let mut k = 0;
@@ -547,6 +719,30 @@ fn gen_kernels(ctx: &Ctx, sink: &mut dyn FnMut(String)) {
             }
         }
     }
+    // the column of a structured reference: every string over { a ' ] [ # } up to length 5 after `tb[`,
+    // then generated column names, closed or truncated
+    let small: Vec<char> = "a']#[@".chars().collect();
+    let mut stack: Vec<String> = vec![String::new()];
+    while let Some(s) = stack.pop() {
+        sink(format!("c11 colref {}", hex(&s)));
+        if s.chars().count() < 5 {
+            for c in &small {
+                let mut t = s.clone();
+                t.push(*c);
+                stack.push(t);
+            }
+        }
+    }
+    for _ in 0..n / 4 {
+        let mut s = column_name(&mut r);
+        match r.below(4) {
+            0 => {}
+            1 => s.push(']'),
+            2 => s.push_str("]+1"),
+            _ => s.push('\''),
+        }
+        sink(format!("c11 colref {}", hex(&s)));
+    }
 }
 
 fn eval_kernels(req: &str) -> ImplOut {
@@ -579,6 +775,27 @@ fn eval_kernels(req: &str) -> ImplOut {
                 Err(_) => ImplOut::new("panic".into()).fail("c11:panic:consume_string", &format!("input {formula:?}")),
             }
         }
+        "colref" => {
+            // the text after `tb[`, lexed as the column of a structured reference
+            let formula = format!("tb[{s}");
+            let locale = get_locale("en").unwrap();
+            let language = get_language("en").unwrap();
+            let r = catch_unwind(|| {
+                let mut lx = Lexer::new(&formula, LexerMode::A1, locale, language);
+                let t = lx.next_token();
+                (t, lx.get_position())
+            });
+            let other = matches!(s.chars().next(), None | Some('[') | Some('#') | Some(']'));
+            match r {
+                Err(_) => ImplOut::new("panic".into()).fail("c11:panic:consume_column_reference", &format!("input {formula:?}")),
+                Ok(_) if other => ImplOut::new("other".into()).trivial(),
+                Ok((TokenType::StructuredReference { table_reference: Some(ironcalc_base::expressions::token::TableReference::ColumnReference(name)), .. }, pos)) => {
+                    ImplOut::new(format!("colref {} {}", hex(&name), pos)).tag("colref:name")
+                }
+                Ok((TokenType::Illegal(_), pos)) => ImplOut::new(format!("illegal {pos}")).tag("colref:illegal").trivial(),
+                Ok((_, _)) => ImplOut::new("unexpected-token".into()),
+            }
+        }
         _ => ImplOut::new("bad-request".into()),
     }
 }
@@ -587,7 +804,7 @@ pub fn suites() -> Vec<Suite> {
     vec![
         Suite {
             name: "c11-kernels",
-            rule: "parse_reference_r1c1 on every string over {R,C,[,],-,1} up to length 5 and random/mutated longer ones; string-literal lexing (Lexer::next_token on a leading double quote); answers compared with the checked Lean model (IndexSafety); non-trivial = a reference / string token was produced",
+            rule: "parse_reference_r1c1 on every string over {R,C,[,],-,1} up to length 5 and random/mutated longer ones; string-literal lexing (Lexer::next_token on a leading double quote); structured-reference column lexing (Lexer::next_token on tb[ + every string over {a,',],#,[,@} up to length 5 and generated escaped column names, closed or truncated); answers compared with the checked Lean model (IndexSafety); non-trivial = a reference / string token was produced",
             modelled: true,
             gen: gen_kernels,
             eval: eval_kernels,
@@ -595,7 +812,7 @@ pub fn suites() -> Vec<Suite> {
         },
         Suite {
             name: "c11-crash",
-            rule: "crash oracle under catch_unwind with a location-recording panic hook: strings from 4 streams (random Unicode, grammar-derived formulas, byte/char/token mutations of valid formulas and format codes, number-like) to Parser::parse (A1, R1C1; with and without '='), Model::formula_completion at every cursor 0..=len+2 and usize::MAX, Model::cycle_reference at every (start,end) in 0..=len+1, format_number(±x) with finite and non-finite x and arbitrary format strings, Model::set_user_input + evaluate + formatted value (also at the last cell), UserModel::set_user_input + undo/redo; every language x locale; a request makes 2..~260 calls; non-trivial = every request (distinct strings)",
+            rule: "crash oracle under catch_unwind with a location-recording panic hook: strings from 4 streams (random Unicode; grammar-derived formulas incl. structured references with escaped column names; byte/char/token mutations biased to mode-switching characters and truncations right after them; number-like) plus a sweep of EVERY prefix, single-character deletion and duplication of ~75 special-prefix shapes (structured references, [book] prefixes, quoted sheets, arrays, localized error literals of every language, R1C1, strings, absolute references) and of freshly generated structured references, to Parser::parse + get_tokens (A1, R1C1; with and without '='), Model::formula_completion at every cursor 0..=len+2 and usize::MAX, Model::cycle_reference at every (start,end) in 0..=len+1, format_number(±x) with finite and non-finite x and arbitrary format strings, Model::set_user_input + evaluate + formatted value (also at the last cell), UserModel::set_user_input + undo/redo; every language x locale; a request makes 2..~260 calls; non-trivial = every request (distinct strings)",
             modelled: false,
             gen: gen_crash,
             eval: eval_crash,
